@@ -1,5 +1,6 @@
 """C09 -- grid tracks: T (Gen/GridTracksGen.v: THRESHOLDs, track-counting tables, AlignContent) + proofs (Props/C09.v)
-+ K (vh c09 cases: whole-API through detailed_layout_info vs Model/GridTracksRun.v over F32, bit for bit)
++ K (vh c09 cases: whole-API through detailed_layout_info vs Model/GridIntrinsicRun.v -- the whole track_sizing_algorithm with
+  the full step 11.5 of Model/GridIntrinsic.v -- over F32, bit for bit; the stage-1 class also vs Model/GridTracksRun.v)
 + search (vh c09 oracle: the property's clauses on DetailedGridInfo for a broad generator; known classes classified)."""
 from ..common import *
 from ..stages import *
@@ -76,7 +77,11 @@ def run(rep, tier, seed, replay=None):
     res, changed = proof_stage(rep, 'C09', extra_trusted=[
         'modelled by hand (tied by K only): Model/GridTracks.v = compute_explicit_grid_size_in_axis, initialize_grid_tracks, '
         'initialize_track_sizes, distribute_space_up_to_limits, maximise_tracks, find_size_of_fr, expand_flexible_tracks, '
-        'stretch_auto_tracks, distribute_item_space_to_base_size, align_tracks; step 11.5 only for span-1 items with known contributions',
+        'stretch_auto_tracks, distribute_item_space_to_base_size, align_tracks; Model/GridIntrinsic.v = resolve_intrinsic_track_sizes in full '
+        '(ItemBatcher, span-1 fast path, the six distribution steps, distribute_item_space_to_growth_limit, flush_planned_*), the items\' '
+        'content sizes as an oracle (K runs it with fixed-size leaves: contribution = fixed size, minimum capped by spanned_fixed_track_limit)',
+        'the inner loops of 11.5 (distribute_space_up_to_limits with arbitrary filters / flex-factor proportions / infinite limits) carry the fuel '
+        '2*len+8: enough on every K case (bit-exact agreement), proved enough only for the call shape of 11.6',
         'numeric theorems are over exact rationals (XQ); the F32 run of the same definitions is compared bit for bit but no rounding-error '
         'analysis connects the two',
         'u16 track counts modelled as N (no wrap-around below 65536 tracks)'])
@@ -85,7 +90,7 @@ def run(rep, tier, seed, replay=None):
     if rc != 0:
         rep.add_broken('build', 'harness', out[-1500:])
         return
-    n = 400 if tier == 'quick' else 6000
+    n = 1200 if tier == 'quick' else 9000
     if mine:
         n = max(n, 3000)
         rep.cov['fingerprint_escalation'] = mine
@@ -147,17 +152,27 @@ def run(rep, tier, seed, replay=None):
             hist[s] = hist.get(s, 0) + 1
     distinct = len(set(tuple(c) for c in cases))
     rep.cov['distinct_nontrivial'] = distinct
-    rep.cov['rule'] = ('K case = border-box grid container of definite size (length padding/border, px or % gap, any align/justify-content), '
-                       'templates of px | % | fr | auto | minmax(px|%|auto, px|%|fr|auto) | repeat(n, ..) | repeat(auto-fill|auto-fit, fixed) '
-                       'and grid-auto tracks of the same kinds, 1-5 fixed-size leaves on explicit CSS lines (span 1; lines may fall outside the '
-                       'explicit grid => implicit tracks on both sides); compared: the 3 track counts, every track size and gutter bit pattern of '
-                       'both axes, container size, every item location.  distinct = distinct C vectors; each compares >= 9 numbers.  The 11 '
-                       'corpus cases (witnesses of the refuted statements, repaired mixed-repeat count) come first.')
+    rep.cov['rule'] = ('K case = border-box root grid container (length padding/border, px or % gap, any align/justify-content, no min/max size); each '
+                       'axis either of definite size or auto under a max-content / min-content / definite available space; templates and grid-auto '
+                       'tracks of px | % | fr | auto | min-content | max-content | fit-content(px|%) | minmax(px|%|auto|min-content|max-content, '
+                       'px|%|fr|auto|min-content|max-content|fit-content) | repeat(n, ..) | repeat(auto-fill|auto-fit, fixed); 1-5 leaves of fixed px '
+                       'size (border-box, no padding/border/min/max/aspect-ratio) with px margins, overflow visible or hidden, placed on explicit CSS '
+                       'lines spanning 1-3 tracks (lines may fall outside the explicit grid => implicit tracks on both sides).  For such a leaf the '
+                       'min-/max-content contributions are its fixed size and the minimum contribution that size capped by spanned_fixed_track_limit '
+                       '(computed by the runner).  Compared: the 3 track counts, every track size and gutter bit pattern of both axes, container '
+                       'size, every item location.  One third of the random cases is the stage-1 class (span 1, no intrinsic keywords), also '
+                       'evaluated by the stage-1 runner.  distinct = distinct C vectors; each compares >= 9 numbers.  The 12 corpus cases '
+                       '(witnesses of the refuted statements incl. the 11.5 leak, repaired mixed-repeat count) come first.')
     rep.cov['input_distribution'] = hist
     rep.cov['samples'] = [{'case': c, 'impl': a} for c, a in list(zip(cases, impl))[:2] + list(zip(cases, impl))[-2:]]
     rep.cov['samples'].append({'theorem': 'C09_fr_fill : Forall track_ok tracks -> finite S -> snd (fr_exit tracks S) = true -> '
                                           'x_leb (Fin 1) (final_flex_factor_sum tracks S) = true -> '
                                           'x_leb S (fsum (map base_size (expand_flexible_tracks amin amax (Definite S) items tracks))) = true'})
+    rep.cov['samples'].append({'theorem': 'C09_intrinsic_preserves_fixed_partial : (forall it, In it items -> alone it i) -> nth_error tracks i = Some t -> '
+                                          'rigid inner t -> calm v t -> exists t\', nth_error (resolve_intrinsic_track_sizes contrib inner avail items tracks) i '
+                                          '= Some t\' /\\ rigid inner t\' /\\ calm v t\''})
+    rep.cov['samples'].append({'theorem': 'C09_intrinsic_monotone : Forall inv tracks -> Forall2 (fun t t\' => x_leb (base_size t) (base_size t\') = true) '
+                                          'tracks (resolve_intrinsic_track_sizes contrib inner avail items tracks)  -- for every oracle `contrib`'})
     rep.cov['samples'].append({'theorem': 'C09_tracks_match_counts : explicit counts = explicit_grid_size template inner gapf mx -> '
                                           'count_tracks (initialize_grid_tracks counts template autos gap has_items) = N.to_nat (counts_len counts) /\\ length .. = 2 * .. + 1'})
     # ---- replay of one oracle hit
@@ -203,7 +218,8 @@ def run(rep, tier, seed, replay=None):
     rc, wout = vh(binp, ['c09', 'witness'], timeout=30)
     wk = set(re.findall(r'^KNOWN \d+ (\S+)', wout, re.M))
     kf = {f['id']: f for f in known_findings('C09') if f.get('status') == 'known'}
-    cls_to_id = {'fr-floor-remaining-lt-1': 'fr-fill-floored-track', 'threshold-overshoot': 'distribute-threshold-overshoot'}
+    cls_to_id = {'fr-floor-remaining-lt-1': 'fr-fill-floored-track', 'threshold-overshoot': 'distribute-threshold-overshoot',
+                 'intrinsic-beyond-limits-leak': 'intrinsic-beyond-limits-leak'}
     for cls, fid in cls_to_id.items():
         hits = knowns.get(cls, [])
         if cls in wk and fid in kf:
